@@ -236,11 +236,42 @@ class Setup:
         for r in self.peers:
             r.take_received()
         rows_before = {bytes(x[0]) for x in self.ro.execute("select block_hash from chain")}
+        # in a fifth of the cases the OTHER thread of a running node (networking) is in the middle of a store flush -- between
+        # "rows written" and "buffer cleared" -- at the moment the miner's handler hands its block to the store
+        flush_thread = None
+        if self.rng.random() < 0.25 and rb.prev != world.gid:
+            import threading
+            # (the other thread has a block to flush: the parent, handed to the store once more as after a repeated delivery)
+            self.store.add_block_to_buffer(world.real[rb.prev])
+            in_window, release = threading.Event(), threading.Event()
+            store = self.store
+            real_write = store.write_blocks_to_disk
+
+            def slow_write(blocks, _rw=real_write):
+                _rw(blocks)
+                in_window.set()
+                release.wait(0.05)
+
+            def other_thread():
+                store.write_blocks_to_disk = slow_write
+                try:
+                    store.flush_blocks_to_disk()
+                finally:
+                    store.write_blocks_to_disk = real_write
+            flush_thread = threading.Thread(target=other_thread)
+            flush_thread.start()
+            in_window.wait(5)
+            c["found_while_other_thread_flushes"] = c.get("found_while_other_thread_flushes", 0) + 1
+            w = dict(w, other_thread_mid_flush=True)
         try:
             quiet(mw.handle_scrypt_output_message, 0, summary_hash)
         except Exception as e:
             mon.v("found-block-handler-raised", repr(e)[:300], w)
             return False
+        finally:
+            if flush_thread is not None:
+                release.set()
+                flush_thread.join(10)
         self.net.settle(node)
         if node.escaped:
             mon.v("exception-escaped-event-handler", node.escaped[0][:300], w)
@@ -399,6 +430,7 @@ def finalize(m, tier):
                    ("pool_additions_while_mining", c.get("pool_additions_while_mining", 0), 50),
                    ("invalid_peer_blocks_after_found_block", c.get("invalid_peer_blocks_after_found_block", 0), 40),
                    ("found_at_retarget_boundary_attempts", c.get("found_at_retarget_boundary_attempts", 0), 15),
-                   ("clock_ticks_while_mining", c.get("clock_ticks_while_mining", 0), 300)],
+                   ("clock_ticks_while_mining", c.get("clock_ticks_while_mining", 0), 300),
+                   ("found_while_other_thread_flushes", c.get("found_while_other_thread_flushes", 0), 30)],
         "extra": {},
     }
